@@ -22,6 +22,11 @@ res = dict(seed=seed, property=a.prop)
 subprocess.check_call(["git", "-C", "/repo", "worktree", "add", "-q", "--detach", scratch, "HEAD"])
 try:
     rc, out = sh("git apply --whitespace=nowarn %s/patch.diff" % seed, cwd=scratch)
+    if rc != 0:
+        # HEAD has moved on since the change was made (later fix: commits): three-way merge of the hunks
+        rc, out2 = sh("git apply -3 --whitespace=nowarn %s/patch.diff && git reset -q" % seed, cwd=scratch)
+        res["applied_three_way"] = rc == 0
+        out += out2
     res["applies"] = rc == 0
     if rc != 0:
         res["apply_output"] = out[-800:]
